@@ -30,7 +30,7 @@ type op struct {
 }
 
 var (
-	keys = []string{"a", "b", "cc", "dd"}
+	keys = []string{"", "a", "b", "cc", "dd"}
 	vals = [][]byte{nil, {}, []byte("x"), []byte("yy"), []byte("zzzzz")}
 )
 
@@ -451,7 +451,7 @@ func TestModel(t *testing.T) {
 			break
 		}
 	}
-	r.Exhaustive(fmt.Sprintf("%d representative configurations x every sequence of %d operations over %d operations (Set x 4 keys x 5 values incl. nil and empty, Get, Del, Clear, Stats)", len(rep), depth, len(al)))
+	r.Exhaustive(fmt.Sprintf("%d representative configurations x every sequence of %d operations over %d operations (Set x 5 keys incl. the empty key x 5 values incl. nil and empty, Get, Del, Clear, Stats)", len(rep), depth, len(al)))
 	if r.TooMany() {
 		r.Finish()
 		t.Fail()
